@@ -152,7 +152,7 @@ Definition check_case (c : case) : bool * bool :=
        match o, inner with
        | Some c, Some (p, q') =>
            (has_byte c_hash p || url_ok_b hosts p q' c) &&
-           (existsb (fun kv => tainted (snd kv)) params || same_counts pattern p)
+           (existsb (fun kv => tainted (snd kv)) params || same_counts_pos pattern p)
        | Some _, None => false
        | None, _ => true
        end)
